@@ -38,11 +38,29 @@ SUBJ_ALPHA = ["a", "b", "A", "1", ".", "|", "&", "~", "-", "[", "]", " ", "\n", 
               "{", "=", "!", "_", "+", "$"]
 
 
+CLASS_ITEMS = ["a", "b", "A", "1", ".", "|", "&", "~", "^", ",", "*", "+", "?", "(", ")", "{", "}", " ", "=", "!", "$", "😀", "é",
+               "\\]", "\\[", "\\\\", "\\-", "\\^", "\\.", "\\n", "\\r", "\\t", "\\(", "\\*", "\\|", "\\{", "\\?",
+               "a-c", "0-9", "A-Z", "!-,", " -~", "\\n-\\r", "\\p{L}", "\\P{Nd}", "\\p{Zs}", "\\p{Lu}"]
+
+
+def rand_class(rng: random.Random) -> str:
+    """A character class assembled from 1-5 items in random order (escaped brackets before dots, ...)."""
+    items = [rng.choice(CLASS_ITEMS) for _ in range(rng.choice([1, 2, 2, 3, 3, 4, 5]))]
+    neg = "^" if rng.random() < 0.3 else ""
+    lead = "-" if rng.random() < 0.1 else ""
+    tail = "-" if rng.random() < 0.15 else ""
+    if not neg and not lead and items[0] == "^":
+        items[0] = "\\^"
+    return "[" + neg + lead + "".join(items) + tail + "]"
+
+
 def rand_pattern(rng: random.Random, depth: int) -> str:
     def piece(d):
         k = rng.random()
         if d > 0 and k < 0.25:
             a = "(" + alt(d - 1) + ")"
+        elif k < 0.45:
+            a = rand_class(rng)
         else:
             a = rng.choice(ATOMS)
         return a + rng.choice(QUANTS)
@@ -73,6 +91,8 @@ def run(chk: core.Check, tier: str, seed: int) -> None:
     patterns = list(ATOMS) + [a + q for a in ATOMS[:14] for q in QUANTS[3:]] + INVALID + DONTCARE
     n_rand = 400 if tier == "quick" else 12000
     patterns += [rand_pattern(rng, rng.choice([1, 2, 3])) for _ in range(n_rand)]
+    patterns += [rand_class(rng) + rng.choice(["", "", "+", "*", "{2}"]) for _ in range(n_rand // 2)]
+    patterns += ["[\\].]", "[\\]a-c.]+", "[.\\]]", "[\\[.]", "[\\\\.]", "[\\].][.]", "[^\\].]", "[a\\]|.]"]
     recs = []
     for p in patterns:
         if tier == "quick":
@@ -93,6 +113,13 @@ def run(chk: core.Check, tier: str, seed: int) -> None:
         recs.append(impl.rec_find(jp, f"$.s[?{fn}(@, $.p)]", doc, edoc=edoc))
         if rng.random() < 0.2:
             recs.append(impl.rec_find(jp, f"$.s[?!{fn}(@, {lit}) && {fn}($.p, @)]", doc, edoc=edoc))
+    # patterns taken from the data: strings, and every non-string kind (arrays, objects, missing)
+    data = [{"s": "ab", "re": "a."}, {"s": "ab", "re": ["a."]}, {"s": "ab", "re": {"a": "."}}, {"s": "ab"}, {"s": "ab", "re": None},
+            {"s": "ab", "re": 1}, {"s": ["ab"], "re": "a."}, {"re": "a."}, {"s": "ab", "re": "a.", "x": 1}, {"s": "b", "re": True}]
+    for fn in ("match", "search"):
+        for q in (f"$[?{fn}(@.s, @.re)]", f"$[?{fn}(@.s, value(@.re))]", f"$[?!{fn}(@.re, @.s)]", f"$[?{fn}(@.s, $[1].re)]",
+                  f"$[?{fn}(@.s, $[3].re)]", f"$[?{fn}($[2].re, 'a')]", f"$[?{fn}(@.s, @.re) || {fn}(@.s, 'a.')]"):
+            recs.append(impl.rec_find(jp, q, data))
     # non-string arguments of every kind
     for fn in ("match", "search"):
         for a in ["1", "null", "true", "@.nope", "$.s", "1.5"]:
@@ -102,9 +129,9 @@ def run(chk: core.Check, tier: str, seed: int) -> None:
         if r.get("locs"):
             chk.nontrivial.add(tuple(r["q"]) + (len(str(r["doc"])),))
     chk.sample({"query": core.dec_text(recs[100]["q"]), "subjects": core.dec_value(recs[100]["doc"])["s"][:8], "locs": recs[100]["locs"]})
-    chk.sample({"query": core.dec_text(recs[-30]["q"]), "pattern": core.dec_value(recs[-30]["doc"])["p"], "locs": recs[-30]["locs"]})
+    chk.sample({"query": core.dec_text(recs[200]["q"]), "pattern": core.dec_value(recs[200]["doc"])["p"], "locs": recs[200]["locs"]})
     common.judge(chk, recs, "c11", what="Trace: match/search records vs IRegexp.tla",
-                 only=lambda c: not c.startswith(("C03", "C04", "C05", "C13")))
+                 only=lambda c: c.startswith("C13 find") or not c.startswith(("C03", "C04", "C05", "C13")))
     chk.rule = (
         f"{len(patterns)} patterns ({len(ATOMS)} atoms, atoms x quantifier forms, {len(INVALID)} invalid, {len(DONTCARE)} "
         f"don't-care, {n_rand} seeded patterns of depth<=3) x 14+ subjects each (fixed short subjects over the special "
